@@ -33,7 +33,8 @@ def _job(job):
                         pass
         wk = w.new_walker(cls, w.env)
         return it.call(it.getattr(wk, meth), [f])
-    res = proc.run_proc(shape, call, shape_pred=pred, world_cls=proc.TypedWorld)
+    # prenex and the eliminators ask the environment's free-variables service: it is the real class here, not the analyser's model
+    res = proc.run_proc(shape, call, shape_pred=pred, world_cls=proc.TypedWorld, services="full" if name in ("prenex", "shannon", "selfsub") else True)
     return [(name, repr(shape) + (" (after a failed substitution)" if history else ""), r.kind, str(r.detail), r.result) for r in res]
 
 
